@@ -17,12 +17,18 @@ INPUTS = {
     # nested keys whose class names collide with names the emitted modules import, and a literal field with 5 values
     "C": [{"fields": [{"a": 1}], "base_model": {"b": 2}, "list": {"c": "x"}, "kind": "k1"}, {"fields": [], "kind": "k2"},
           {"kind": "k3"}, {"kind": "k4"}, {"kind": "k5"}],
+    # a child model shared by two different parents under one root: the nested layout lifts it to the common ancestor and
+    # refers to it by ABSOLUTE path, i.e. generate_code runs with a non-empty AbsoluteModelRef context
+    "E": [{"child_0": {"item": {"a": 1, "b": "x"}, "n": 1}, "child_1": {"item": {"a": 2, "b": "y"}, "m": 2.5}}],
 }
-OPTS = {"A": dict(cmp=[("percent", 0.5)], unidecode=True), "B": dict(cmp=None, unidecode=False), "C": dict(cmp=None, unidecode=True)}
+OPTS = {"A": dict(cmp=[("percent", 0.5)], unidecode=True), "B": dict(cmp=None, unidecode=False), "C": dict(cmp=None, unidecode=True),
+        "E": dict(cmp=None, unidecode=True)}
 RENDERS = {"pf": dict(fw="pydantic", structure="flat"), "an": dict(fw="attrs", structure="nested", meta=True),
            "df": dict(fw="dataclasses", structure="flat", converters=True), "bn": dict(fw="base", structure="nested"),
            "d3": dict(fw="dataclasses", structure="flat", max_literals=3), "b16": dict(fw="base", structure="flat", max_literals=16),
-           "sf": dict(fw="sqlmodel", structure="flat")}
+           "sf": dict(fw="sqlmodel", structure="flat"),
+           # nested layout even when the model graph is not a tree (a shared child): exercises the reference-path context
+           "bN": dict(fw="base", structure="nested", force_nested=True), "dN": dict(fw="dataclasses", structure="nested", force_nested=True)}
 
 
 def dump_registry(reg):
@@ -50,7 +56,7 @@ class State:
             reg = self.registry(args[0])
             o = dict(pipeline.DEFAULT_OPTS, **OPTS[args[0]])
             o.update(RENDERS[args[1]])
-            if o["structure"] == "nested" and not pipeline.tree_shaped(reg):
+            if o["structure"] == "nested" and not o.get("force_nested") and not pipeline.tree_shaped(reg):
                 o["structure"] = "flat"
             return {"text": pipeline.render(reg, o)}
         if kind == "F":          # a render that raises inside code generation after k classes
@@ -66,10 +72,11 @@ class State:
                         raise RuntimeError("injected failure in code generation")
                     return super().generate(*a, **kw)
             from json_to_models.models.base import generate_code
-            from json_to_models.models.structure import compose_models_flat
+            from json_to_models.models.structure import compose_models, compose_models_flat
             o = dict(pipeline.DEFAULT_OPTS, **OPTS[args[0]])
+            compose = compose_models if len(args) > 2 and args[2] == "N" else compose_models_flat     # F:<input>:<k>:N = nested layout
             try:
-                generate_code(compose_models_flat(reg.models_map), Failing, class_generator_kwargs=pipeline.generator_kwargs(dict(o, fw="pydantic")))
+                generate_code(compose(reg.models_map), Failing, class_generator_kwargs=pipeline.generator_kwargs(dict(o, fw="pydantic")))
                 return {"raised": None}
             except RuntimeError as e:
                 return {"raised": str(e)}
